@@ -3,9 +3,9 @@ C18PG = "server/db/postgres"
 
 PROPS["C18"] = prop(
     "fault_enumeration",
-    "fault enumeration with rapid-generated scripts against fake MySQL/PostgreSQL wire servers; oracle = transaction-bracket invariant over the statement trace; rapid-generated account creations through the store mapper (store.Users.Create) over the in-memory adapter with the k-th adapter call failing; oracle = error reported and store unchanged, or no error and everything written",
+    "fault enumeration with rapid-generated scripts against fake MySQL/PostgreSQL wire servers; oracle = transaction-bracket invariant over the statement trace; besides a generic statement error the fake servers fail a statement with the error numbers adapters special-case, with the server-side state change that goes with them (MySQL 1213 deadlock = the server has rolled back and ended the whole transaction, 1205 lock wait timeout = statement only; PostgreSQL 40P01 deadlock, 23503 foreign key, 57014 cancel = aborted transaction block; savepoints tracked by name); rapid-generated account creations through the store mapper (store.Users.Create) over the in-memory adapter with the k-th adapter call failing; oracle = error reported and store unchanged, or no error and everything written",
     "one case = (adapter operation, arguments, result script for its SELECT/UPDATE/DELETE/INSERT answers, fault position k, fault kind in {statement error, "
-    "duplicate key on an INSERT, connection drop}); every case first runs fault-free to learn the statement count n, so 1 <= k <= n; "
+    "duplicate key on an INSERT, connection drop, MySQL deadlock 1213 / lock wait timeout 1205 on a data-modifying statement, PostgreSQL deadlock 40P01 / foreign-key violation 23503 on a data-modifying statement, PostgreSQL cancel 57014 on a SELECT or data-modifying statement}); every case first runs fault-free to learn the statement count n, so 1 <= k <= n; "
     "non-trivial = k > 1 and at least one data-modifying statement succeeded before statement k; distinct = distinct (operation, arguments, script, k, kind) by FNV-64; "
     "the Enum units enumerate every k and every kind for a fixed scenario list (argument variants x one-at-a-time and pairwise script deviations, deduplicated by the shape of the fault-free trace); "
     "the Stall units (thorough only) stall every position of every default scenario beyond sql_timeout",
@@ -14,10 +14,12 @@ PROPS["C18"] = prop(
     "FileDeleteUnused, FileLinkAttachments) the real driver stack (go-sql-driver/database/sql/sqlx, pgx/pgxpool) talks to an in-process fake server that fails "
     "statement k; every position of every enumerated scenario is visited, and rapid draws further (arguments, script, k, kind) combinations. Judged on the trace the "
     "server saw: writes only inside one BEGIN..COMMIT/ROLLBACK bracket on one connection; a bracket containing a failed, not explicitly tolerated statement is never "
-    "committed; nil is returned only with exactly one successful COMMIT; no bracket is open when the call returns.",
+    "committed; nil is returned only with exactly one successful COMMIT; no bracket is open when the call returns. "
+    "After a MySQL deadlock error the bracket has been ended by the server (rollback of the whole transaction): no data-modifying statement of the operation may be executed afterwards, because it runs in autocommit mode and is committed on its own, and a later COMMIT is a no-op that does not count as the operation's COMMIT. "
+    "A failed statement that the adapter undoes with ROLLBACK TO SAVEPOINT still forbids COMMIT and a nil return unless it is the documented tolerated duplicate-key failure; on a nil return every failed statement of the trace must be a tolerated one.",
     "No DBMS is available: atomicity is judged on the transaction bracket the driver emits (the property's observe_at), not on table contents; isolation/locking of a real "
     "server is not modelled. The fake PostgreSQL server models the aborted-transaction state (25P02 until ROLLBACK / ROLLBACK TO SAVEPOINT, COMMIT of an aborted block "
-    "answers ROLLBACK); the fake MySQL server keeps the transaction usable after a failed statement, as MySQL does. Adapters run with sql_timeout unset (a legal "
+    "answers ROLLBACK); the fake MySQL server keeps the transaction usable after a failed statement, as MySQL does, except after error 1213 where - as InnoDB does for a deadlock victim - the whole transaction is rolled back and the connection is back in autocommit mode (the status flags of the following answers say so). Both fake servers track savepoints by name: ROLLBACK TO / RELEASE of a name that was not established fails (3B001 / 1305) and does not revive an aborted PostgreSQL block. Adapters run with sql_timeout unset (a legal "
     "configuration), so no context cancellation can roll back behind the adapter's back; deadline expiry is only covered by the thorough-tier Stall units. "
     "Of the store-level compositions in store.go account creation (Users.Create = UserCreate + TopicShare + compensating delete; unit TestC18StoreAccount), message-range deletion (Messages.DeleteList = MessageDeleteList + TopicUpdate + SubsUpdate) and group creation (Topics.Create = TopicCreate + TopicShare; unit TestC18StoreOps) are judged on the in-memory adapter; a hard delete whose SQL affects other rows than intended cannot be seen without a DBMS. MongoDB/RethinkDB adapters are not exercised.",
     "5/C18", "sql-fault",
@@ -30,7 +32,10 @@ PROPS["C18"] = prop(
      Unit("TestC18StoreAccount", "server", quick=4000, thorough=200000, shards_quick=2, shards_thorough=8, timeout_quick=300),
      Unit("TestC18StoreOps", "server", quick=3000, thorough=100000, shards_quick=2, shards_thorough=8, timeout_quick=300)],
     ["a duplicate-key error on INSERT INTO subscriptions is tolerated by createSubscription (turned into an UPDATE; PostgreSQL: after ROLLBACK TO SAVEPOINT) and a "
-     "duplicate-key error on INSERT INTO usertags is tolerated by UserUpdateTags without reset (addTags ignoreDups) on MySQL: committing after these is not a violation",
+     "duplicate-key error on INSERT INTO usertags is tolerated by UserUpdateTags without reset (addTags ignoreDups) on MySQL: committing after these is not a violation; "
+     "only a real unique violation (MySQL 1062, PostgreSQL 23505) is tolerated there, any other failure of the same INSERT (generic error, deadlock, lock wait timeout, foreign key, cancel, 25P02) is not",
+     "MySQL error 1213 means InnoDB has rolled back the victim's whole transaction (documented behaviour); error 1205 rolls back the statement only (innodb_rollback_on_timeout=OFF, the default); "
+     "deadlock, lock wait timeout and foreign-key faults are only injected at data-modifying statements, cancel (PostgreSQL) at SELECTs and data-modifying statements",
      "a COMMIT that fails ends the transaction at the server without making it durable (as MySQL and PostgreSQL do); ROLLBACK itself is never failed",
      "a transaction ended by the loss of its connection counts as ended (the server rolls it back), even when the adapter never finishes its client-side transaction object",
      "fault-free runs may legitimately end in ROLLBACK with an error (not found, duplicate, malformed): then no COMMIT may have happened",
